@@ -105,6 +105,20 @@ def main():
     args = ap.parse_args()
     t0 = time.time()
     import properties
+    if args.prop == "ALL":
+        # development aid (dev/equiv.py, dev/sweep_seeds.py): every property from one analysis, one process
+        res = ensure_analysis(args.tier)
+        if "error" in res:
+            print("ANALYSIS-ERROR:", res["error"])
+            return 2
+        import report
+        worst = 0
+        for p_ in sorted(properties.PROPS):
+            print("@@ " + p_)
+            rc = report.decide(p_, args.tier, res, time.time(), None)
+            print(f"@@rc {p_} {rc}")
+            worst = max(worst, rc)
+        return worst
     if args.prop not in properties.PROPS:
         print(f"ANALYSIS-ERROR: unknown or unclaimed property {args.prop}")
         return 2
